@@ -53,11 +53,14 @@ EXCLUSIONS = {
     'ternary-one-const-arm': 'the arms of ?: are both constant or both non-constant [finding ternary-partial-possible]',
     'break-cond-nonconst': 'a break is never guarded by a constant condition, and loops with a break are generated at the '
                            'top level of a function only [finding break-in-do-while-escapes-if]',
-    'no-bool-operand-in-compare': 'an operand of a comparison is never itself a comparison / logical / ! expression '
-                                  '[finding bool-compare-negative (C03)]',
+    'no-bool-operand-in-compare': 'an operand of a comparison or of an arithmetic/bitwise operator is never itself a '
+                                  'comparison / logical / ! expression [findings bool-compare-negative (C03), '
+                                  'bool-operand-arith]',
+    'alias-write-only': 'values are never read back through an alias pointer [finding alias-deref-stale-range]',
     'return-only-in-top-level-if': 'an early return is only generated as the last statement of an if/else block at function '
                                    'level, never nested deeper or inside a loop/switch; nothing follows a return '
                                    '[finding nested-return-escapes-outer-if (C03)]',
+    'neg-const-to-unsigned-cast': 'a negative constant is never cast to an unsigned type [finding compare-casts-negative-const]',
     'alias-self-read': 'the value stored through an alias pointer never reads the aliased variable [finding alias-ternary]',
 }
 
@@ -382,6 +385,9 @@ class Gen:
         if a.const:
             if a.v is None:
                 return self.smalllit(0, 9)
+            if self.cal and a.v < 0 and not is_signed(typ):
+                # exclusion neg-const-to-unsigned-cast [finding compare-casts-negative-const]
+                a = self.mk_lit(-a.v)
             v, _ = wrap(a.v, typ)
         return N('cast', typ, a, pid=self.pid(), t=typ, const=a.const, v=v)
 
@@ -473,6 +479,9 @@ class Gen:
     def leaf(self, env, avoid=None):
         r = self.rng
         cands = [c for c in env.readable() if c[1] != avoid and c[3] != avoid]
+        if self.cal:
+            # exclusion alias-write-only: values are never read back through an alias pointer
+            cands = [c for c in cands if c[0] not in ('ptr', 'sptr')]
         if cands and r.random() < 0.75:
             kind, name, extra, _tgt = r.choice(cands)
             if kind == 'scalar':
@@ -503,8 +512,8 @@ class Gen:
         x = r.random()
         if x < 0.5:
             op = r.choice(ARITH)
-            a = self.expr(env, depth - 1, avoid)
-            b = self.expr(env, depth - 1, avoid)
+            a = self.nonbool(self.expr(env, depth - 1, avoid), env, avoid)
+            b = self.nonbool(self.expr(env, depth - 1, avoid), env, avoid)
             if op in ('+', '-', '*'):
                 if op == '*' and r.random() < 0.7:
                     b = self.smalllit(0, 9)
